@@ -190,6 +190,11 @@ CAMPAIGNS.update({
                   ex(ph(["read"], True), ph(["read"], True, "same", 8, "b"), ph(["eqx"], True)),
                   ex(ph(["filter", "sort_order", "transpose", "copy", "update_ids", "add_metadata", "del_metadata"], True),
                      ph(["read"], pick=3), ph(["eq", "eqx"]))]),
+    "equality_universe": dict(model_campaign(
+        "equality_universe", palettes=MOVE, heaps="univeq",
+        quick=[ex(ph(["eq"]))], thorough=[ex(ph(["eq"])), ex(ph(["read"], False, pick=2), ph(["eqx"]))],
+        cap_quick=8000, cap_thorough=200000),
+        univ={"quick": {"n": 2, "m": 2, "vals": 3, "k": 1500}, "thorough": {"n": 2, "m": 2, "vals": 3, "k": 0}}),
     "equality_triples": model_campaign(
         "equality_triples", palettes=MOVE, heaps="eq3",
         quick=[ex(ph(["eq3"])),
@@ -239,6 +244,11 @@ CAMPAIGNS.update({
         quick=[ex(ph(["merge"], False, "r"))], thorough=[ex(ph(["merge"], True, "r", 8))],
         cap_quick=8000, cap_thorough=200000),
         univ={"quick": {"n": 2, "m": 2, "vals": 3, "k": 500}, "thorough": {"n": 2, "m": 2, "vals": 3, "k": 0}}),
+    "concat_universe": dict(model_campaign(
+        "concat_universe", palettes=SUMP, heaps="univcat",
+        quick=[ex(ph(["concat"], False, "r"))], thorough=[ex(ph(["concat"], True, "r"))],
+        cap_quick=8000, cap_thorough=200000),
+        univ={"quick": {"n": 2, "m": 2, "vals": 3, "k": 400}, "thorough": {"n": 2, "m": 2, "vals": 3, "k": 0}}),
     "concat_blocks": model_campaign(
         "concat_blocks", palettes=SUMP, heaps="cat",
         quick=[ex(ph(["concat"], True, "r")),
@@ -253,6 +263,17 @@ CAMPAIGNS.update({
                ex(ph(LAYOUT, pick=6), ph(["partition", "collapse"], True, "r", 12))],
         thorough=[ex(ph(LAYOUT), ph(["partition", "collapse"], True, "r")),
                   ex(ph(LAYOUT, pick=10), ph(LAYOUT, pick=4), ph(["partition", "collapse"], True, "r", 20))]),
+    # every 2 x 3 count matrix over {0,1,2}
+    "partition_universe": dict(model_campaign(
+        "partition_universe", palettes=SUMP, heaps="univ",
+        quick=[ex(ph(["partition", "collapse"], False, "r"))], thorough=[ex(ph(["partition", "collapse"], True, "r", 24))],
+        cap_quick=8000, cap_thorough=200000),
+        univ={"quick": {"n": 3, "m": 2, "vals": 3, "k": 60}, "thorough": {"n": 3, "m": 2, "vals": 3, "k": 0}}),
+    "subsample_universe": dict(model_campaign(
+        "subsample_universe", palettes=CNTP, heaps="univ",
+        quick=[ex(ph(["subsample"], False, "r"))], thorough=[ex(ph(["subsample"], True, "r", 24))],
+        cap_quick=8000, cap_thorough=200000),
+        univ={"quick": {"n": 2, "m": 3, "vals": 3, "k": 80}, "thorough": {"n": 2, "m": 3, "vals": 3, "k": 0}}),
     "subsample_counts": model_campaign(
         "subsample_counts", palettes=CNTP, heaps="cnt",
         quick=[ex(ph(["subsample"], True, "r")),
@@ -287,6 +308,19 @@ CAMPAIGNS.update({
                ex(ph(LAYOUT + ["update_ids", "subsample"], pick=10), ph(["rt_tsv"], True, "r", 8))],
         thorough=[ex(ph(LAYOUT + ["update_ids", "subsample"]), ph(["rt_tsv"], True, "r")),
                   ex(ph(LAYOUT), ph(LAYOUT + ["subsample"], pick=6), ph(["rt_tsv"], True, "r", 8))]),
+    # every sparsity pattern of a 2 x 3 table (all 729 matrices over {0,1,2}) through every format
+    "files_universe": dict(model_campaign(
+        "files_universe", palettes=TSVP, heaps="univ",
+        quick=[ex(ph(["rt_hdf5", "rt_json", "rt_tsv"], False, "r"))],
+        thorough=[ex(ph(["rt_hdf5", "rt_json", "rt_tsv"], False, "r")),
+                  ex(ph(["rt_hdf5", "rt_json", "rt_tsv"], True, "r", 12))],
+        cap_quick=8000, cap_thorough=200000),
+        univ={"quick": {"n": 2, "m": 3, "vals": 3, "k": 150}, "thorough": {"n": 2, "m": 3, "vals": 3, "k": 0}}),
+    "subset_universe": dict(model_campaign(
+        "subset_universe", palettes=TSVP, heaps="univ",
+        quick=[ex(ph(["subset_read"], False, "r"))], thorough=[ex(ph(["subset_read"], True, "r", 30))],
+        cap_quick=8000, cap_thorough=200000),
+        univ={"quick": {"n": 2, "m": 3, "vals": 3, "k": 60}, "thorough": {"n": 2, "m": 3, "vals": 3, "k": 0}}),
     "subset_reads": model_campaign(
         "subset_reads", palettes=TSVP, heaps="files",     # ID-list files cannot hold IDs with outer blanks
         quick=[ex(ph(["subset_read"], True, "r", 40)),
@@ -352,18 +386,18 @@ PROPERTIES = {
                             "format documents); a validator crash counts as 'not reported valid'"]},
     "C17": {"level": "model_checking", "campaigns": [CAMPAIGNS["constructions"]], "assumptions": []},
     "C19": {"level": "model_checking", "campaigns": [CAMPAIGNS["summaries"], CAMPAIGNS["summary_universe"]], "assumptions": []},
-    "C01": {"level": "model_checking", "campaigns": [CAMPAIGNS["hdf5_roundtrip"]], "assumptions": []},
-    "C04": {"level": "model_checking", "campaigns": [CAMPAIGNS["hdf5_roundtrip"]], "assumptions": []},
-    "C02": {"level": "model_checking", "campaigns": [CAMPAIGNS["json_roundtrip"]], "assumptions": []},
-    "C03": {"level": "model_checking", "campaigns": [CAMPAIGNS["tsv_roundtrip"]], "assumptions": []},
-    "C14": {"level": "model_checking", "campaigns": [CAMPAIGNS["subset_reads"], CAMPAIGNS["subset_wide"]], "assumptions": []},
+    "C01": {"level": "model_checking", "campaigns": [CAMPAIGNS["hdf5_roundtrip"], CAMPAIGNS["files_universe"]], "assumptions": []},
+    "C04": {"level": "model_checking", "campaigns": [CAMPAIGNS["hdf5_roundtrip"], CAMPAIGNS["files_universe"]], "assumptions": []},
+    "C02": {"level": "model_checking", "campaigns": [CAMPAIGNS["json_roundtrip"], CAMPAIGNS["files_universe"]], "assumptions": []},
+    "C03": {"level": "model_checking", "campaigns": [CAMPAIGNS["tsv_roundtrip"], CAMPAIGNS["files_universe"]], "assumptions": []},
+    "C14": {"level": "model_checking", "campaigns": [CAMPAIGNS["subset_reads"], CAMPAIGNS["subset_wide"], CAMPAIGNS["subset_universe"]], "assumptions": []},
     "C20": {"level": "model_checking", "campaigns": [CAMPAIGNS["err_profile"]],
             "assumptions": ["kinds obssize/sampsize cannot be tripped in isolation (the duplicate test is also true "
                             "for every size mismatch and is evaluated first), so their reactions are not exercised"]},
     "C09": {"level": "model_checking", "campaigns": [CAMPAIGNS["merge_pairs"], CAMPAIGNS["merge_universe"]], "assumptions": []},
-    "C10": {"level": "model_checking", "campaigns": [CAMPAIGNS["concat_blocks"]], "assumptions": []},
-    "C11": {"level": "model_checking", "campaigns": [CAMPAIGNS["partition_collapse"]], "assumptions": []},
-    "C12": {"level": "model_checking", "campaigns": [CAMPAIGNS["subsample_counts"], CAMPAIGNS["draws"]],
+    "C10": {"level": "model_checking", "campaigns": [CAMPAIGNS["concat_blocks"], CAMPAIGNS["concat_universe"]], "assumptions": []},
+    "C11": {"level": "model_checking", "campaigns": [CAMPAIGNS["partition_collapse"], CAMPAIGNS["partition_universe"]], "assumptions": []},
+    "C12": {"level": "model_checking", "campaigns": [CAMPAIGNS["subsample_counts"], CAMPAIGNS["subsample_universe"], CAMPAIGNS["draws"]],
             "spec_checks": [{"module": "MC_Draws.tla", "cfg": "MC_Draws.cfg", "workers": 1, "env": {"DRAW_CFG": "draws_%s.json" % m}}
                             for m in ("without", "with", "by_id")],
             "assumptions": ["the distribution clauses compare outcome frequencies over 4000 (quick) / 20000 (thorough) seeds "
@@ -388,7 +422,7 @@ PROPERTIES = {
     },
     "C16": {
         "level": "model_checking",
-        "campaigns": [CAMPAIGNS["equality_routes"], CAMPAIGNS["equality_triples"], CAMPAIGNS["reads_full"]],
+        "campaigns": [CAMPAIGNS["equality_routes"], CAMPAIGNS["equality_universe"], CAMPAIGNS["equality_triples"], CAMPAIGNS["reads_full"]],
         "assumptions": ["copy.deepcopy, scipy toarray and numpy are trusted for the projection"],
     },
     "C18": {
